@@ -36,6 +36,7 @@ func checkC01(c *Ctx, r *Report) {
 	c01SubnetMasked(c, r, "C01.R8.subnet-masked")
 	txtEmptyList(c, r, "C01.R1.txt-empty", "an RDATA-less TXT-like record (the RFC 2136 class-ANY form) is packed with RDLENGTH 1 and a lone zero octet: unpack followed by pack changes the octets")
 	sideStructOffsets(c, r, "C01.R1.side-offsets", "the octets produced for the structure stop before that field")
+	resetOnConvert(c, r, "C01.R2.rfc3597-reset", "a reused RFC3597 value keeps the Rdata of the record converted before: an RDATA-less record is then packed with the previous record's RDATA")
 }
 
 // sideStructs are the hand-written wire-format structs with their packers.
